@@ -11,10 +11,11 @@ import NrfModel.Drv.Ble
 import NrfModel.Drv.Structs
 import NrfModel.Drv.Spec0809
 import NrfModel.Drv.Cfg
+import NrfModel.Drv.SpecK
 
 open Nrf.Drv
 
-def allHandlers : List (String × Handler) := netHandlers ++ rfHandlers ++ netSHandlers ++ meshHandlers ++ bleHandlers ++ structsHandlers ++ spec0809Handlers ++ cfgHandlers
+def allHandlers : List (String × Handler) := netHandlers ++ rfHandlers ++ netSHandlers ++ meshHandlers ++ bleHandlers ++ structsHandlers ++ spec0809Handlers ++ cfgHandlers ++ specKHandlers
 
 def dispatch (line : String) : String :=
   match (line.splitOn " ").filter (· ≠ "") with
